@@ -118,6 +118,24 @@ Section Quad.
             Some (oadd O (omul O slope (osub O x (nth j xp qzero))) (nth j fp qzero))
     end.
 
+  (* scipy interp1d(kind="linear", fill_value="extrapolate") as FineContour.interpFunction uses it: numpy.searchsorted (side left),
+     clipped to [1, n-1], slope * (x - x_lo) + y_lo -- also beyond the ends *)
+  Fixpoint searchsorted (xp : list T) (x : T) (i : nat) : nat :=
+    match xp with
+    | [] => i
+    | a :: t => if olt O a x then searchsorted t x (S i) else i
+    end.
+  Definition interp_extrap (xp fp : list T) (x : T) : T :=
+    let hi := Nat.max 1 (Nat.min (searchsorted xp x 0) (length xp - 1)) in
+    let lo := (hi - 1)%nat in
+    let slope := odiv O (osub O (nth hi fp qzero) (nth lo fp qzero)) (osub O (nth hi xp qzero) (nth lo xp qzero)) in
+    oadd O (omul O slope (osub O x (nth lo xp qzero))) (nth lo fp qzero).
+
+  (* FineContour.interpFunction: the point at poloidal distance s from the fine contour's startInd *)
+  Definition interp_point (pos : list P2) (dist : list T) (si : nat) (s : T) : P2 :=
+    let xs := map (fun d => osub O d (nth si dist qzero)) dist in
+    (interp_extrap xs (map fst pos) s, interp_extrap xs (map snd pos) s).
+
   Fixpoint all_some {A} (l : list (option A)) : option (list A) :=
     match l with
     | [] => Some []
